@@ -18,9 +18,9 @@ LEVEL = 'model_checking'
 TECHNIQUE = ('explicit-state exploration of the real LatexTokenReader: every (suffix, configuration) '
              'state, one read transition each, plus complete runs; invariants on every transition')
 
-ALPHA = words.SIGMA_R + ['\\begin{a}', '\\end{a}']
+ALPHA = words.SIGMA_R + ['\\begin{a}', '\\end{a}', '\r']
 
-BOUNDS = {'quick': dict(N=3, R=2), 'thorough': dict(N=4, R=4)}
+BOUNDS = {'quick': dict(N=3, R=2, X=2), 'thorough': dict(N=4, R=4, X=3)}
 
 MATH = [
     ('text', dict(in_math_mode=False)),
@@ -35,6 +35,7 @@ SWITCHES = ['enable_double_newline_paragraphs', 'enable_macros', 'enable_environ
 GROUPS = [('default', None), ('+[]', [('{', '}'), ('[', ']')])]
 
 _CONFIGS = None
+_BYKEY = {}
 
 
 def configs():
@@ -77,7 +78,34 @@ def configs():
             for tol in (False, True):
                 out.append(((ename, '-', 'default', cname, 'tolerant' if tol else 'strict'), ps, tol))
     _CONFIGS = out
+    for (ckey, ps, tol) in out:
+        _BYKEY[ckey] = ps
     return out
+
+
+def partners(ckey, all_of_them):
+    """States that differ from the configuration only in the math setting (next in rotation, or all five)."""
+    names = [m[0] for m in MATH]
+    if ckey[0] not in names:
+        return []
+    i = names.index(ckey[0])
+    js = range(1, len(names)) if all_of_them else (1,)
+    return [_BYKEY[(names[(i + j) % len(names)],) + tuple(ckey[1:])] for j in js]
+
+
+def cross_state(s, ps, tol, others, viol):
+    """peek under one parsing state, then read under another: the read must be what a fresh reader returns."""
+    from pylatexenc.latexnodes import LatexTokenReader
+    for ps2 in others:
+        tr = LatexTokenReader(s, tolerant_parsing=tol)
+        _read(tr.peek_token, ps)
+        k2, c2, _ = _read(tr.next_token, ps2)
+        p2 = tr.cur_pos()
+        tr0 = LatexTokenReader(s, tolerant_parsing=tol)
+        k0, c0, _ = _read(tr0.next_token, ps2)
+        if (k2, c2, p2) != (k0, c0, tr0.cur_pos()):
+            viol('peek-under-other-state-changes-read', [k2, c2, p2], [k0, c0, tr0.cur_pos()])
+            return
 
 
 def canon_tok(t):
@@ -167,10 +195,13 @@ def full_run(s, ps, tol, viol, cache_first):
     tr = LatexTokenReader(s, tolerant_parsing=tol)
     pieces = []
     reads = 0
+    first_tok = None
     while True:
         p0 = tr.cur_pos()
         k, c, t = _read(tr.next_token, ps)
         if k == 'tok':
+            if first_tok is None:
+                first_tok = (c, t)
             reads += 1
             p1 = tr.cur_pos()
             if p1 <= p0 or reads > len(s):
@@ -185,6 +216,26 @@ def full_run(s, ps, tol, viol, cache_first):
             pieces.append(c or '')
             if ''.join(pieces) != s:
                 viol('run-lossy', pieces, s)
+            # the end of the stream is not sticky: peeking there changes nothing, and after a rewind the run starts over
+            kp, cp, _ = _read(tr.peek_token, ps)
+            if (kp, cp) != (k, c):
+                viol('eos-not-repeatable', [kp, cp], [k, c])
+            if first_tok is not None:
+                for how in ('token', 'pos'):
+                    if how == 'token':
+                        tr.move_to_token(first_tok[1])
+                    else:
+                        tr.move_to_pos_chars(0)
+                    k4, c4, _ = _read(tr.next_token, ps)
+                    if (k4, c4) != ('tok', first_tok[0]):
+                        viol('reread-after-end-of-stream-differs', [how, k4, c4], ['tok', first_tok[0]])
+                    # and run to the end again
+                    toks2 = 0
+                    while k4 == 'tok' and toks2 <= len(s) + 1:
+                        toks2 += 1
+                        k4, c4, _ = _read(tr.next_token, ps)
+                    if (k4, c4, toks2) != ('eos', c, reads):
+                        viol('second-run-after-rewind-differs', [how, k4, c4, toks2], ['eos', c, reads])
             return reads
         elif k == 'err':
             if tol:
@@ -195,7 +246,7 @@ def full_run(s, ps, tol, viol, cache_first):
             return None
 
 
-def check_word(s, acc, do_run, only_cfg=None):
+def check_word(s, acc, do_run, only_cfg=None, do_cross=True):
     for (ckey, ps, tol) in configs():
         if only_cfg is not None and list(ckey) != list(only_cfg):
             continue
@@ -223,6 +274,13 @@ def check_word(s, acc, do_run, only_cfg=None):
             acc.count('tok_' + c[0])
             acc.count('nontrivial')
             acc.outcome((c[0], c[1], c[2], c[3] - c[2], len(c[4]), len(c[5]), ckey[0], ckey[4]))
+        if do_cross and kind in ('tok', 'eos'):
+            acc.count('cross_state_reads')
+            st, res = run_guarded(cross_state, s, ps, tol, partners(ckey, True), viol)
+            if st == 'timeout':
+                viol('hang', None, None)
+            elif st == 'exc':
+                viol('exception', type(res).__name__ + '@' + exc_frame(res), None)
         if do_run:
             def first(suffix, _ps=ps, _tol=tol):
                 from pylatexenc.latexnodes import LatexTokenReader
@@ -244,11 +302,11 @@ def plan(tier):
     return dict(
         shards=shards,
         bounds=dict(b, alphabet=ALPHA, configurations=len(configs())),
-        rule=('state = (remaining input, configuration): every word of length <= N over the 15-symbol '
+        rule=('state = (remaining input, configuration): every word of length <= N over the 16-symbol '
               'alphabet x every configuration (6 math settings x 2^7 enable_* switches x 2 group-delimiter '
               'lists x {no context, default context} x {strict, tolerant} + 28 extras with forbidden/escape/'
-              'comment characters); one transition (peek, read, rewind, re-read) per state; complete runs for '
-              'words of length <= R.  non-trivial = states whose transition yields a token (not end of '
+              'comment characters); one transition (peek, read, rewind, re-read) per state, plus peek under the state and read under a state that differs only in the math setting (all five other settings, words of length <= X); complete runs for '
+              'words of length <= R, followed by a rewind from the end of the stream and a second complete run.  non-trivial = states whose transition yields a token (not end of '
               'stream / strict error); states are distinct by construction.'),
         assumptions=['the state graph over suffixes is closed: checked by the suffix-canonicalisation comparison on every step of every complete run'],
     )
@@ -258,7 +316,7 @@ def run_shard(shard, tier, acc):
     b = BOUNDS[tier]
     for w in words.iter_shard(ALPHA, b['N'], shard):
         s = words.render(ALPHA, w)
-        check_word(s, acc, do_run=(len(w) <= b['R']))
+        check_word(s, acc, do_run=(len(w) <= b['R']), do_cross=(len(w) <= b['X']))
         acc.sample(dict(s=s, cfg='all %d configurations' % len(configs())))
 
 
